@@ -54,7 +54,7 @@ var e1AllW = []wk{
 	{model.CGetOrSet, 7}, {model.CGetAndSet, 7}, {model.CGetAndRefresh, 7}, {model.CGetOrCompute, 7}, {model.CCompute, 9},
 	{model.CGetAndDelete, 7}, {model.CDelete, 5}, {model.CDeleteExpired, 6}, {model.CRange, 4}, {model.CItems, 3}, {model.CClear, 2},
 	{model.CCount, 4}, {model.CDefaultExp, 2}, {model.CSetDefaultExp, 3}, {model.CSetCallback, 2},
-	{model.HAdvance, 22}, {model.HBulkSet, 3}, {model.HBulkDel, 2}, {model.HBulkGet, 1},
+	{model.HAdvance, 22}, {model.HBulkSet, 3}, {model.HBulkDel, 2}, {model.HBulkGet, 1}, {model.HGC, 1},
 }
 
 var e1Focuses = map[string]*e1Focus{
